@@ -36,6 +36,11 @@ def c10_case_list(tier, seed, only_fn=None):
             if f in ("sinh", "cubic", "saturating") and abs(r) > 1e5 and tier != "thorough":
                 continue
             cases.append(dict(fn="_bisection_search", func=f, root=r, lower=-10.0, upper=10.0, tol=t, max_iter=m))
+    if only_fn in (None, "_autoregressive_bisection_search"):
+        for dim in ((1, 2, 4, 6) if tier == "thorough" else (1, 3, 5)):
+            for tol_, seed_ in ((1e-3, 0), (1e-8, 1)) + (((1e-5, 2),) if tier == "thorough" else ()):
+                cases.append(dict(fn="_autoregressive_bisection_search", func="triangular", root=0.5, dim=dim, tol=tol_, max_iter=200, seed=seed_, lower=-10.0, upper=10.0))
+        cases.append(dict(fn="_autoregressive_bisection_search", func="triangular", root=0.5, dim=3, tol=1e-6, max_iter=200, seed=4, lower=-1.0, upper=1.0, spread=20.0))
     if only_fn in (None, "_adapt_interval_to_include_root"):
         for f, r in itertools.product(funcs, roots + [-4.0, 8.0]):
             for lo, hi in ((-10.0, 10.0), (-2.0, 0.0), (3.0, 3.5)):
@@ -66,9 +71,9 @@ def c10_cases(tier, seed, only_fn=None):
 def g_c10(tier, seed):
     cases = c10_case_list(tier, seed)
     fails = c10_cases(tier, seed)
-    distinct = len({(c["fn"], c["func"], c["root"], c.get("tol"), c.get("max_iter"), c["lower"]) for c in cases if c["root"] not in (0.0,)})
+    distinct = len({(c["fn"], c["func"], c["root"], c.get("tol"), c.get("max_iter"), c["lower"], c.get("dim"), c.get("seed")) for c in cases if c["root"] not in (0.0,)})
     return dict(evaluations=len(cases), distinct_nontrivial=distinct,
-                rule="real _bisection_search/_adapt_interval_to_include_root (float64) on increasing functions {linear steep/flat, cubic, sinh, saturating, kinked} x roots inside/on the ends/outside/1e6 away x tol x max_iter; non-trivial = root != 0",
+                rule="real _bisection_search/_adapt_interval_to_include_root (float64) on increasing functions {linear steep/flat, cubic, sinh, saturating, kinked} x roots inside/on the ends/outside/1e6 away x tol x max_iter; real _autoregressive_bisection_search on triangular maps (dims 1-6, cross-coordinate coupling, preimage also outside the initial interval); non-trivial = root != 0",
                 samples=cases[:3], failures=[f for f in fails if not f.get("error")], errors=[f for f in fails if f.get("error")])
 
 
